@@ -3,6 +3,7 @@
 import copy
 
 from props import _transfer_common as TC
+from props import _transfer_push as TP
 
 PROPERTY = "C04"
 GEN: list = []
@@ -16,19 +17,28 @@ RULE = (
     "shared files + random subsets; quick: a seeded sample that always contains a shared-file single) and a "
     "configuration (destination class x destination index): fault-free round, faulty round, fault-free retry on the "
     "result, and one crash round per abort point n=1..attempts of the faulty round, each on a fresh copy of the "
-    "initial destination; plus scenarios where listed source files vanish between the status phase and the uploads; the closure audit runs after every upload attempt and at the end of every round. A "
+    "initial destination; plus scenarios where listed source files vanish between the status phase and the uploads; the closure audit runs after every upload attempt and at the end of every round. Separate oracle-only stream: index-level pushes of a DataIndex (a file entry + 1-2 directory entries sharing "
+    "a file, lazily loaded or with explicit children) from a cache lacking 0-2 listed files to an empty / closed "
+    "remote through the fault-injecting file system, then a retry after the cache was restored. A "
     "scenario is non-trivial when an upload happened and a failure, crash, verification drop, file missing on both "
     "sides or pre-populated destination is involved."
 )
 ASSUMPTIONS = [
+    "index-level push: oracle-only stream in C04 (dvc_data.index.push.push over collect(..., push=True) with a cache "
+    "that lacks 0-2 listed files, then restored and pushed again); the designated (closed) request is modelled and "
+    "proved in C18 (Model/PushFetch.v)",
     "an upload is atomic (LocalFileSystem.put_file: temporary name + os.replace); the process can be killed between "
     "uploads, not inside one; the abort is imposed right after an upload attempt (BaseException out of put_file)",
     "uploads are sequential (jobs=1; dvc_objects uses batch_size=1 for local->local copies); the orders of the "
     "directory loop and of the uploads are observed and passed to the model as oracle arguments",
     "objects are planted with mode 0o444: a LocalHashFileDB trusts them by mode (re-hashing and removing unprotected "
     "corrupt objects during status is C07's subject)",
-    "directory objects in play are genuine (bytes hash to the id) and flat; the request is closed and the initial "
-    "destination is closed (the property's quantifier)",
+    "directory objects in play are genuine (bytes hash to the id) and flat; the request is closed and the "
+    "destination is closed at the start of the round (the property's quantifier); with a destination index the round "
+    "is audited when the index is sound (every key present) or stale in the way the real validation detects (a "
+    "directory is requested and an indexed directory object is gone) - the Coq hypothesis ix_sound; other rounds "
+    "are counted under excluded:*",
+    "30% of the destinations carry a real hash State (sqlite)",
     "closure is judged on a plain os.listdir/json view of the destination (lib.impl.walk_store), not through dvc_data",
 ]
 
@@ -54,6 +64,10 @@ def _judge_and_register(ctx, S, notes, items):
     ctx.count("class:" + case["dst_cls"] + ("+index" + ("(noop)" if case["dix"] == "noop" else "") if case["dix"] else "")
               + ("+srcindex" + ("(noop)" if case["six"] == "noop" else "") if case["six"] else ""))
     ctx.count("mode:" + ("shallow" if case["shallow"] else "expand") + ("/verify" if case["verify"] else ""))
+    for k, v in S.excluded.items():
+        ctx.count(k if k.startswith("judged:") else "excluded:" + k, v)
+    if case.get("dst_state"):
+        ctx.count("dst-state")
     ctx.count("rounds", len(S.rounds))
     ctx.count("crash-rounds", sum(1 for ob in S.rounds if ob["crash"] is not None))
     ctx.count("audited-rounds", sum(1 for ob in S.rounds if TC.c04_preconditions(S, ob) is None))
@@ -65,6 +79,28 @@ def _judge_and_register(ctx, S, notes, items):
     return problems
 
 
+def _history(ctx, case, notes, items):
+    """run a multi-round history, then replay it with the second round aborted at (quick: one,
+    thorough: every) upload attempt"""
+    S = TC.run_scenario(ctx, case)
+    try:
+        n = len(_judge_and_register(ctx, S, notes, items))
+        k = 1 if len(S.rounds) > 1 else 0
+        m = len(S.rounds[k]["putorder"])
+    finally:
+        S.close()
+    points = list(range(1, m + 1))
+    if ctx.tier != "thorough" and len(points) > 1:
+        points = [ctx.rng.choice(points)]
+    for cv in TC.crash_variants(case, k, m, points):
+        S = TC.run_scenario(ctx, cv)
+        try:
+            n += len(_judge_and_register(ctx, S, notes + ["history:crash-variant"], items))
+        finally:
+            S.close()
+    return n
+
+
 def run(ctx):
     items = []
     n_problems = 0
@@ -72,6 +108,9 @@ def run(ctx):
     for case in TC.builtin_corpus("C04") + TC.corpus_cases("C04"):
         case = copy.deepcopy(case)
         case["prop"] = "C04"
+        if any(r.get("delete") for r in case["rounds"]):
+            n_problems += _history(ctx, case, ["corpus"], items)
+            continue
         S = TC.run_scenario(ctx, case, crash_all=True)
         try:
             n_problems += len(_judge_and_register(ctx, S, ["corpus"], items))
@@ -82,6 +121,8 @@ def run(ctx):
     per_base = ctx.n(2, 40)
     for _ in range(nbase):
         base, notes = TC.gen_base(ctx.rng, "C04")
+        if ctx.rng.random() < 0.3:
+            base["dst_state"] = True  # a real hash State on the destination
         uploads = TC.probe_uploads(ctx, base)
         ctx.count("uploads:%d" % min(len(uploads), 8))
         shared = TC.shared_files(base)
@@ -135,6 +176,31 @@ def run(ctx):
                     n_problems += len(_judge_and_register(ctx, S, notes, items))
                 finally:
                     S.close()
+    # ---- histories: remote gc behind a persistent destination index, then a different tree
+    for _ in range(ctx.n(16, 120)):
+        case, notes = TC.gen_history_c04(ctx.rng)
+        n_problems += _history(ctx, case, notes, items)
+    # ---- index-level push stream (oracle only)
+    n_push = n_push_problems = 0
+    for case in TP.builtin_corpus() + [TP.gen_case(ctx.rng) for _ in range(ctx.n(25, 200))]:
+        for cv, problems, (feats, nontrivial), rounds in TP.run_case(ctx, copy.deepcopy(case),
+                                                                    crash_points=ctx.n(1, 8)):
+            n_push += 1
+            ctx.case(cv, nontrivial)
+            ctx.count("push:scenarios")
+            ctx.count("push:rounds", len(rounds))
+            ctx.count("push:audit-points", sum(len(ob["snaps"]) + 1 for ob in rounds))
+            ctx.count("push:" + ("explicit-children" if cv["explicit"] else "lazy-dir-entries"))
+            ctx.count("push:cache-missing=%d" % len(cv["cache_missing"]))
+            ctx.count("push:remote:" + cv["remote_cls"] + ("+index" if cv["remote_index"] else ""))
+            for f in feats:
+                ctx.count("push:feature:" + f)
+            for sig, what in problems:
+                ctx.oracle_fail(sig, what, cv)
+            n_push_problems += len(problems)
+    ctx.obligation("oracle:index-push-closure", n_push_problems == 0,
+                   f"{n_push} index-level push scenarios ({ctx.dist.get('push:rounds', 0)} rounds, closure audited at "
+                   f"{ctx.dist.get('push:audit-points', 0)} points, retry-completes after the cache was restored)")
     ctx.obligation("oracle:closure", n_problems == 0,
                    f"{len(items)} scenarios, {ctx.dist.get('rounds', 0)} real transfer rounds "
                    f"({ctx.dist.get('crash-rounds', 0)} aborted), closure audited at {ctx.dist.get('audit-points', 0)} points; "
@@ -145,6 +211,11 @@ def run(ctx):
 
 def replay_case(ctx, case):
     case = copy.deepcopy(case)
+    if case.get("stream") == "index-push":
+        res = TP.run_case(ctx, case)
+        problems = res[0][1]
+        return {"violates": bool(problems), "problems": problems,
+                "outcomes": [list(map(str, ob["outcome"])) for ob in res[0][3]]}
     S = TC.run_scenario(ctx, case)
     try:
         problems = TC.judge_c04(S)
